@@ -180,7 +180,7 @@ func c04(c *an.Check) {
 			for _, b := range an.ScanBlocks(lit) {
 				for _, ins := range b.Instrs {
 					if lk, ok := ins.(*ssa.Lookup); ok && an.IsFieldLoad(lk.X, a.byPeerF) {
-						k := st.Canon(lk.Index)
+						k := an.ResolveHelperParam(st.Canon(lk.Index))
 						call, isCall := k.(*ssa.Call)
 						okKey = isCall && call.Call.IsInvoke() && call.Call.Method.Name() == "EstablishLinkTargetPeerId"
 					}
